@@ -109,6 +109,13 @@ func (vc *VC) call(st *State, v *ssa.Call, c *ssa.CallCommon) error {
 				fname = a.Comment
 			} else if fvv, ok := fv.X.(*ssa.FreeVar); ok {
 				fname = fvv.Name()
+			} else if fa, ok := fv.X.(*ssa.FieldAddr); ok {
+				// a function value held in a struct field (m.queueFn): anchored by the field name
+				if pt, ok := fa.X.Type().Underlying().(*types.Pointer); ok {
+					if stt, ok := pt.Elem().Underlying().(*types.Struct); ok {
+						fname = stt.Field(fa.Field).Name()
+					}
+				}
 			}
 		}
 		ordF := 0
